@@ -1207,6 +1207,23 @@ def _np_square(interp, args, kwargs):
     return _sbin(interp, ast.Mult, a, a)
 
 
+def _np_fmod(interp, args, kwargs):
+    """np.fmod / math.fmod on integers and floats: remainder with the sign of the dividend (truncated division)"""
+    x, y = args[0], args[1]
+    if type(x) is not Sym and type(y) is not Sym:
+        return np.fmod(x, y)
+    ix = (type(x) is Sym and is_int_type(x.ty)) or (type(x) is not Sym and isinstance(x, (int, np.integer)))
+    iy = (type(y) is Sym and is_int_type(y.ty)) or (type(y) is not Sym and isinstance(y, (int, np.integer)))
+    if ix and iy:
+        xt, yt = num_term(x), num_term(y)
+        if interp.ctx.branch(yt == 0):
+            raise Unsupported("np.fmod by zero")
+        ay = z3.If(yt >= 0, yt, -yt)
+        interp.ctx.used_models.add("np.fmod on integers: x - y*trunc(x/y)")
+        return mk(z3.If(xt >= 0, xt % ay, -((-xt) % ay)), np.int64)
+    return ops.mfmod(interp.ctx, x, y)
+
+
 def _np_cmp(opcls):
     def model(interp, args, kwargs):
         return interp.compare(opcls, args[0], args[1])
@@ -1332,6 +1349,7 @@ def build_models():
         np.sign: _elementwise(lambda it, x: ops.msign(it.ctx, x), np.sign),
         np.arctan2: lambda it, a, k: ops.matan2(it.ctx, a[0], a[1], True) if (type(a[0]) is Sym or type(a[1]) is Sym) else np.arctan2(a[0], a[1]),
         np.hypot: lambda it, a, k: ops.mhypot(it.ctx, a[0], a[1], True) if (type(a[0]) is Sym or type(a[1]) is Sym) else np.hypot(a[0], a[1]),
+        np.fmod: _np_fmod,
         np.greater_equal: _np_cmp(ast.GtE),
         np.less_equal: _np_cmp(ast.LtE),
         np.greater: _np_cmp(ast.Gt),
